@@ -25,7 +25,7 @@ RULE = ("A: case = (knob-quantizer configuration incl. use_ste, float32 tensor, 
         "quantization (quantized != surrogate) and some factor lies strictly "
         "inside (0,1). B: case = (configuration, tensor, history of "
         "call/update(float|np.float32|np.float64|tf constant|tf.Variable)/build(use_variables)"
-        "/scheduler.set_quantizers/get_config round trip); non-trivial = the "
+        "/scheduler.set_quantizers/get_config round trip, all six classes); non-trivial = the "
         "history contains an update that follows a variable-creating build. "
         "C: case = (list of layer descriptions, scheduler arguments, history of "
         "callback hooks and forward calls); non-trivial = the model has a knob "
@@ -64,17 +64,21 @@ ASSUMPTIONS = [
     "passes are not part of the reference",
     "between start and finish the factor must equal 1-((finish-p)/(finish-"
     "start))^exponent within 1e-9 (cited paper + tests/callbacks_test.py)",
-    "get_config round trip of quantized_hswish is not exercised here (C09)",
+    "after a get_config round trip the rebuilt quantizer is held to the "
+    "references of the original configuration (same 4 ulp), and a later update "
+    "of the discarded original must not change it",
 ]
 BUDGET_S = {"quick": 45, "thorough": 840}
 REQUIRED_LABELS = {
     "quick": ["A", "A:ste", "A:noste", "A:linear", "A:f_mid", "A:auto_alpha",
               "A:var_ctor", "A:var_rebuild", "A:hyp",
               "B", "B:update_after_var_build", "B:roundtrip",
-              "B:set_quantizers", "B:kind_tf", "B:kind_np32",
+              "B:set_quantizers", "B:kind_tf", "B:kind_np32", "B:kind_tfvar",
+              "B:quantized_linear", "B:quantized_hswish",
               "C", "C:epoch", "C:step", "C:between", "C:before_start",
               "C:from_finish", "C:nonupdate_step", "C:has_nonknob",
-              "C:has_singular", "C:prebuilt", "C:forward_checked"],
+              "C:has_singular", "C:prebuilt", "C:forward_checked",
+              "C:has_quantized_linear", "C:has_act_quantizer"],
 }
 REQUIRED_LABELS["thorough"] = REQUIRED_LABELS["quick"]
 
@@ -394,19 +398,22 @@ class QuantSim(object):
                         "scheduler use_ste=%r quantizer.use_ste=%r" % (
                             op["use_ste"], self.q.use_ste)))
       elif name == "roundtrip":
-        if self.cfg["cls"] == "quantized_hswish":
-          self.labels.add("B:roundtrip_skipped_hswish")
-        else:
-          self.q = type(self.q).from_config(self.q.get_config())
-          self.labels.add("B:roundtrip")
-          # get_config does not carry every option (C09's subject); what C07
-          # asks of the rebuilt quantizer is that it carries the factor, so
-          # the references are re-taken from the rebuilt configuration
-          self._take_refs(self.q)
-          # use_variables is not part of the config: float-backed unless the
-          # value handed over is itself a variable
-          self.var_pending = False
-          self.var_built = False
+        old_q = self.q
+        self.q = type(self.q).from_config(self.q.get_config())
+        self.labels.add("B:roundtrip")
+        # The rebuilt quantizer must carry the factor AND behave like the
+        # original for every later factor: the references (surrogate and
+        # quantized value of the ORIGINAL configuration) are kept, so an
+        # option lost by get_config that changes the output shows up here.
+        # use_variables is not part of the config: float-backed again.
+        self.var_pending = False
+        self.var_built = False
+        # the rebuilt quantizer owns its factor: moving the discarded
+        # original must not move it
+        try:
+          old_q.update_qnoise_factor(1.0 if self.f < 0.5 else 0.0)
+        except Exception:  # pylint: disable=broad-except
+          pass
       else:
         raise core.HarnessError("unknown op %r" % (op,))
     except core.HarnessError:
@@ -486,8 +493,7 @@ def make_machine_b(ctx, cfgs):
     def call(self):
       self.do({"op": "call"})
 
-    @rule(f=G.f_strategy(), kind=st.sampled_from(["py", "np32", "np64", "tf", "py", "np32",
-                                 "tf", "tfvar"]))
+    @rule(f=G.f_strategy(), kind=st.sampled_from(["py", "np32", "np64", "tf", "tfvar"]))
     def update(self, f, kind):
       self.do({"op": "update", "f": f, "kind": kind})
 
